@@ -56,6 +56,13 @@ def run(tier):
                  'monitor task' % (300 if th else 120, ns), impl=impl,
             cfg={'ping_interval': 120, 'ping_timeout': 60, 'monitor': True}, nslots=ns,
             scripts=long_scripts(seed + 1, 30 if th else 10, 300 if th else 120, ns, w)))
+        # the application ends sessions itself, also ones whose client has vanished (the call may
+        # never return - known finding F6 of C15, not judged here): the id must be dead all the same
+        plans.append(dict(
+            what='histories with application disconnect(sid) calls, clients vanishing, real '
+                 'monitor task', impl=impl,
+            cfg={'ping_interval': 120, 'ping_timeout': 60, 'monitor': True}, nslots=ns,
+            scripts=long_scripts(seed + 3, 24 if th else 8, 80, ns, dict(w, disconnect=5, shutdown=0))))
         plans.append(dict(
             what='histories without monitor (lazy reaping), 3 sessions', impl=impl,
             cfg={'ping_interval': 12, 'ping_timeout': 6, 'monitor': False}, nslots=3,
